@@ -13,6 +13,7 @@ fn shape_at(font: &LFont, c: &Compiled, feature: &str, coords: &[f64], input: &[
         coords: coords.to_vec(),
         gsub: true,
         gpos: false,
+        alternate_index: 0,
     };
     let r = font.shape(&req, &c.gids(input));
     assert!(r.problems.is_empty(), "{:?}", r.problems);
